@@ -15,6 +15,8 @@ pub mod apistep;
 
 #[cfg(all(kani, feature = "c01"))]
 pub mod p_c01;
+#[cfg(all(kani, feature = "c02"))]
+pub mod p_c02;
 #[cfg(all(kani, feature = "c03"))]
 pub mod p_c03;
 #[cfg(all(kani, any(feature = "c04", feature = "c05")))]
